@@ -120,7 +120,9 @@ class Constant(Leaf):
 
     def __post_init__(self):
         super().__post_init__()
-        self.literal = self.literal or self.ast
+        # NOTE: the literal may be a falsy value such as 0 or False
+        if self.literal is None or self.literal == '':
+            self.literal = self.ast
 
     def _parse(self, ctx: Ctx) -> Any:
         return ctx.constant(self.literal)
